@@ -8,7 +8,7 @@ From ClapModel Require Import Base.Bytes Base.Machine Base.Utf8 Lex.OsStrExtMode
 From ClapModel Require Import Parse.Cmd Parse.Build Parse.Valid Parse.Matcher Parse.Errors Parse.Validator Parse.Parser.
 From ClapModel Require Import ParseProofs.Safe ParseProofs.Invariant ParseProofs.Totality ParseProofs.TotalityMain
   ParseProofs.Sources ParseProofs.Spelling ParseProofs.Dispatch ParseProofs.Provenance
-  ParseProofs.Escape ParseProofs.EscapeWalk ParseProofs.EscapeStore ParseProofs.EscapeSub ParseProofs.EscapeLevel ParseProofs.EscapeChain.
+  ParseProofs.Escape ParseProofs.EscapeWalk ParseProofs.EscapeStore ParseProofs.EscapeSub ParseProofs.EscapeLevel ParseProofs.EscapeChain ParseProofs.EscapeDisplay.
 From Coq Require Import ZArith Lia List Bool.
 From RecordUpdate Require Import RecordSet.
 Import RecordSetNotations.
@@ -187,6 +187,7 @@ Fixpoint esc_ok (fuel : nat) (c : cmd) : Prop :=
            /\ is_set s_ignore_errors c = false
            /\ (forall a, In a (c_args c) -> a_hyphen a = false)
            /\ (forall vaf, possible_subcommand c dashdash vaf = None)
+           /\ nodisp_src c
            /\ forall name sc, build_subcommand c name = Some sc -> esc_ok f sc
   end.
 
@@ -219,7 +220,7 @@ Theorem gmw_delivered : forall fuel c pre t st0 st',
   delivered fuel c t (into_inner (mt st')).
 Proof.
   induction fuel as [|f IH]; intros c pre t st0 st' Hok Ht Hp0 Hs0 H; [destruct Hok|].
-  destruct Hok as (Hwf & Happ & Hig & Hnh & Hdd & Hch).
+  destruct Hok as (Hwf & Happ & Hig & Hnh & Hdd & Hnd & Hch).
   pose proof (lvl_of_wfc c Hwf Happ) as Hl. pose proof (lvl_store_of_wfc c Hwf Happ) as Hst.
   destruct (level_tail_verbatim c Hl Hst Hnh Hdd f pre t st0 st' Ht Hp0 H) as [Hc|[Hc|Hc]].
   - cbn [delivered]. left. destruct Hc as [Hc1 Hc2]. split.
@@ -297,7 +298,7 @@ Theorem gmw_prefix_same : forall fuel c pre t1 t2 st0 s1 s2,
   prefix_same fuel c (into_inner (mt s1)) (into_inner (mt s2)).
 Proof.
   induction fuel as [|f IH]; intros c pre t1 t2 st0 s1 s2 Hok Hp0 Hs0 H1 H2; [destruct Hok|].
-  destruct Hok as (Hwf & Happ & Hig & Hnh & Hdd & Hch).
+  destruct Hok as (Hwf & Happ & Hig & Hnh & Hdd & Hnd & Hch).
   pose proof (lvl_of_wfc c Hwf Happ) as Hl. pose proof (lvl_store_of_wfc c Hwf Happ) as Hst.
   destruct (level_prefix_entries c Hl Hst Hnh Hdd f pre t1 t2 st0 s1 s2 Hp0 H1 H2) as [Hc|[Hc|Hc]].
   - cbn [prefix_same]. left. destruct Hc as [Hc1 Hc2]. split.
@@ -343,6 +344,84 @@ Proof.
     split; [reflexivity|]. split; [reflexivity|exact Hargs].
 Qed.
 
+(** * (1) over the tree: a help/version outcome of the whole parse is not caused by the tail *)
+Lemma find_sub_dd c : (forall vaf, possible_subcommand c dashdash vaf = None) -> find_subcommand c dashdash = None.
+Proof.
+  intros H. specialize (H false). unfold possible_subcommand in H.
+  change (utf8_valid dashdash) with true in H. cbn [negb] in H. rewrite andb_false_r in H.
+  match type of H with match ?inf with Some n => _ | None => _ end = None => destruct inf end; [discriminate|].
+  destruct (find_subcommand c dashdash); [discriminate|reflexivity].
+Qed.
+
+Lemma help_walk_dd : forall r f c t1 t2, esc_ok f c ->
+  help_walk c (r ++ dashdash :: t1) = help_walk c (r ++ dashdash :: t2).
+Proof.
+  induction r as [|n r IH]; intros f c t1 t2 Hok; destruct f as [|f]; try destruct Hok.
+  - destruct H0 as (_ & _ & _ & Hdd & _). cbn [app help_walk]. rewrite (find_sub_dd c Hdd). reflexivity.
+  - destruct H0 as (_ & _ & _ & _ & _ & Hch). cbn [app help_walk].
+    destruct (find_subcommand c n) as [s0|]; [|reflexivity].
+    destruct (build_subcommand c (c_name s0)) as [s'|] eqn:Eb; [|reflexivity].
+    exact (IH f s' t1 t2 (Hch _ _ Eb)).
+Qed.
+
+Lemma post_err c e st : is_set s_ignore_errors c = false -> post c (RErr e st) = RErr e st.
+Proof. intros H. cbn [post]. rewrite H. reflexivity. Qed.
+
+Theorem gmw_display_not_from_tail : forall fuel c pre t1 t2 st0 e s,
+  esc_ok fuel c -> mt_pending (mt st0) = None ->
+  get_matches_with fuel c (pre ++ dashdash :: t1) st0 = RErr e s -> is_display (e_kind e) = true ->
+  exists s', get_matches_with fuel c (pre ++ dashdash :: t2) st0 = RErr e s'.
+Proof.
+  induction fuel as [|f IH]; intros c pre t1 t2 st0 e s Hok Hp0 H Hd; [destruct Hok|].
+  pose proof Hok as Hok'. destruct Hok as (Hwf & Happ & Hig & Hnh & Hdd & Hnd & Hch).
+  pose proof (lvl_of_wfc c Hwf Happ) as Hl. destruct Hl as (W3 & WP & WD).
+  assert (Hl : lvl c) by (split; [exact W3|split; [exact WP|exact WD]]).
+  rewrite !gmw_unfold in *. unfold parsed_of in *. fold ls0 in *.
+  destruct (TV0 c st0 Hp0) as [HTV HLTV].
+  pose proof (escape_line_sim c W3 WP Hnh Hdd pre t1 t2 ls0 st0 HTV HLTV) as Hs.
+  remember (parse_loop c (pre ++ dashdash :: t1) ls0 st0) as R1 eqn:ER1.
+  remember (parse_loop c (pre ++ dashdash :: t2) ls0 st0) as R2 eqn:ER2.
+  assert (Contra : forall stp, TV c stp -> post c (ROk stp) = RErr e s -> False).
+  { intros stp HT Hp. rewrite (post_no_display c Hl Hnd stp e s HT Hp) in Hd. discriminate. }
+  destruct Hs as [x ls' st1 Htr HT _ _|e0 s0|x|n k v s0 r HT0|r s0|tk r s0 HT0]; cbn [rbind] in H |- *.
+  - exfalso. destruct (parse_loop c (x ++ t1) ls' st1) as [lr|e1 s1|x1] eqn:EL; cbn [rbind] in H.
+    + pose proof (trailing_result_TV c Hl _ _ _ _ WP Htr HT EL) as HTlr.
+      destruct lr as [s1|? ? ? s1 ?|nm vals s1|? s1]; cbn [lr_state] in HTlr.
+      * exact (Contra s1 HTlr H).
+      * destruct (trailing_no_dispatch c _ _ _ _ Htr EL) as [[? Hq]|(? & ? & ? & ? & _ & Hq & _)]; discriminate Hq.
+      * destruct (external_matches c nm vals s1) as [stp|e1 s2|x1] eqn:Ex.
+        -- pose proof (external_verbatim c nm vals s1) as Hx. rewrite Ex in Hx. cbn [holds] in Hx. subst stp.
+           exact (Contra _ (TV_set_sub c s1 _ HTlr) H).
+        -- rewrite (post_err c _ _ Hig) in H. injection H as <- _.
+           rewrite (external_matches_kind c _ _ _ _ _ Ex) in Hd. discriminate.
+        -- discriminate H.
+      * destruct (trailing_no_dispatch c _ _ _ _ Htr EL) as [[? Hq]|(? & ? & ? & ? & _ & Hq & _)]; discriminate Hq.
+    + rewrite (post_err c _ _ Hig) in H. injection H as <- _.
+      rewrite (trailing_no_display_TV c W3 WP WD _ _ _ _ _ Htr HT EL) in Hd. discriminate.
+    + discriminate H.
+  - exists s. exact H.
+  - discriminate H.
+  - unfold after_sub in *.
+    destruct (is_set s_args_negate_subs c && v); [exists s; exact H|].
+    destruct (find_subcommand c n) as [sc0|]; cbn [expect rbind] in *; [|discriminate H].
+    destruct (build_subcommand c (c_name sc0)) as [sc|] eqn:Eb; [|exfalso; exact (Contra s0 HT0 H)].
+    destruct (negb (assert_app sc)); [discriminate H|].
+    destruct (get_matches_with f sc (r ++ dashdash :: t1) (sub_init k s0)) as [sub1|e1 sub1|x1] eqn:Eg1.
+    + exfalso. exact (Contra _ (TV_set_sub c s0 _ HT0) H).
+    + rewrite Hig in H. rewrite (post_err c _ _ Hig) in H. injection H as <- <-.
+      assert (Hps : mt_pending (mt (sub_init k s0)) = None) by (unfold sub_init; destruct k; reflexivity).
+      destruct (IH sc r t1 t2 (sub_init k s0) e1 sub1 (Hch _ _ Eb) Hps Eg1 Hd) as [s' Eg2].
+      rewrite Eg2, Hig. exists s0. apply post_err. exact Hig.
+    + discriminate H.
+  - rewrite (help_walk_dd r (S f) c t1 t2 Hok') in H. exists s. exact H.
+  - exfalso. destruct (external_matches c tk (r ++ dashdash :: t1) s0) as [stp|e1 s2|x1] eqn:Ex.
+    + pose proof (external_verbatim c tk (r ++ dashdash :: t1) s0) as Hx. rewrite Ex in Hx. cbn [holds] in Hx. subst stp.
+      exact (Contra _ (TV_set_sub c s0 _ HT0) H).
+    + rewrite (post_err c _ _ Hig) in H. injection H as <- _.
+      rewrite (external_matches_kind c _ _ _ _ _ Ex) in Hd. discriminate.
+    + discriminate H.
+Qed.
+
 (** * [do_parse] / [parse_top] *)
 Fixpoint esc_okb (fuel : nat) (c : cmd) : bool :=
   match fuel with
@@ -350,6 +429,8 @@ Fixpoint esc_okb (fuel : nat) (c : cmd) : bool :=
   | S f =>
       negb (is_set s_ignore_errors c) && forallb (fun a => negb (a_hyphen a)) (c_args c)
       && negb (is_some (possible_subcommand c dashdash false)) && negb (is_some (possible_subcommand c dashdash true))
+      && forallb (fun a => negb (display_action a)
+                           || (negb (is_some (a_env a)) && is_nil (a_default a) && is_nil (a_default_ifs a))) (c_args c)
       && forallb (fun s => match build_subcommand c (c_name s) with Some sc => esc_okb f sc | None => false end) (c_subs c)
   end.
 
@@ -357,14 +438,18 @@ Lemma esc_ok_of : forall f c, tree_ok f c -> esc_okb f c = true -> esc_ok f c.
 Proof.
   induction f as [|f IH]; intros c Hok Hb; [destruct Hok|].
   destruct Hok as (Hwf & Happ & Hch). cbn [esc_okb] in Hb.
-  apply andb_true_iff in Hb as [Hb H5]. apply andb_true_iff in Hb as [Hb H4].
+  apply andb_true_iff in Hb as [Hb H5]. apply andb_true_iff in Hb as [Hb H6]. apply andb_true_iff in Hb as [Hb H4].
   apply andb_true_iff in Hb as [Hb H3]. apply andb_true_iff in Hb as [H1 H2].
   cbn [esc_ok]. split; [exact Hwf|]. split; [exact Happ|]. split; [apply negb_true_iff; exact H1|].
   split; [intros a Hin; rewrite forallb_forall in H2; apply negb_true_iff; apply H2; exact Hin|].
-  split.
+  split; [|split].
   - intros [|].
     + destruct (possible_subcommand c dashdash true); [discriminate|reflexivity].
     + destruct (possible_subcommand c dashdash false); [discriminate|reflexivity].
+  - intros a Hin Ha. rewrite forallb_forall in H6. specialize (H6 a Hin). rewrite Ha in H6. cbn [negb orb] in H6.
+    apply andb_true_iff in H6 as [H6 Hc3]. apply andb_true_iff in H6 as [Hc1 Hc2].
+    split; [destruct (a_env a); [discriminate|reflexivity]|].
+    split; [destruct (a_default a); [reflexivity|discriminate]|destruct (a_default_ifs a); [reflexivity|discriminate]].
   - intros name sc Hbs. apply IH; [exact (Hch name sc Hbs)|].
     pose proof Hbs as Hbs'. unfold build_subcommand in Hbs'.
     destruct (List.find (fun s => beq (c_name s) name) (c_subs c)) as [s0|] eqn:Ef; [|discriminate].
@@ -612,4 +697,36 @@ Proof. vm_compute. repeat split; reflexivity. Qed.
 Example ex_chain_untouched :
   forallb (fun a => if is_some (a_index a) then negb (touched (build_self z_c0) a [102]) else true)
           (c_args (build_self z_c0)) = true.
+Proof. vm_compute. reflexivity. Qed.
+
+(** (1) for the entry points: a DisplayHelp/DisplayVersion outcome of [pre ++ -- :: t1] is the outcome
+    for every other tail *)
+Theorem do_parse_display_not_from_tail c0 pre t1 t2 e :
+  esc_class c0 = true -> do_parse c0 (pre ++ dashdash :: t1) = OErr e -> is_display (e_kind e) = true ->
+  do_parse c0 (pre ++ dashdash :: t2) = OErr e.
+Proof.
+  intros Hc. destruct (esc_class_ok c0 Hc) as (Hv & Hok & Hig & Hg).
+  unfold do_parse. rewrite Hv. cbn [negb]. fold (top_fuel c0). rewrite Hig. cbn [andb].
+  destruct (get_matches_with (top_fuel c0) (build_self c0) (pre ++ dashdash :: t1) ps_new) as [st|e1 st|x] eqn:Eg.
+  - discriminate.
+  - intros H Hd. injection H as ->.
+    destruct (gmw_display_not_from_tail _ _ pre t1 t2 ps_new e st Hok eq_refl Eg Hd) as [s' ->]. reflexivity.
+  - destruct x; discriminate.
+Qed.
+
+Theorem parse_top_display_not_from_tail c0 bin pre t1 t2 e :
+  esc_class c0 = true -> is_set s_no_binary_name c0 = false -> c_bin_name c0 <> None ->
+  parse_top c0 (bin :: pre ++ dashdash :: t1) = OErr e -> is_display (e_kind e) = true ->
+  parse_top c0 (bin :: pre ++ dashdash :: t2) = OErr e.
+Proof.
+  intros Hc Hnb Hb. unfold parse_top. rewrite Hnb. destruct (c_bin_name c0); [|contradiction].
+  apply do_parse_display_not_from_tail. exact Hc.
+Qed.
+
+(** [prog --help -- x y] asks for help whatever follows the escape *)
+Example ex_top_display :
+  match parse_top x_c0 ([112] :: [t_help] ++ dashdash :: x_tail) with
+  | OErr e => is_display (e_kind e) = true
+  | _ => False
+  end.
 Proof. vm_compute. reflexivity. Qed.
